@@ -409,3 +409,12 @@ Definition ok_dedup (c : list (nat * nat) * option (list nat)) : bool :=
   | _, _ => false
   end.
 Definition mismatches_dedup := mismatches ok_dedup.
+
+(** * C11: the conflict pass of GenerateEnums *)
+From V Require Import Model.EnumConflict.
+(** a case: always-prefix option, names of the non-enum types, the enums in processing order, and for every
+    enum whether its constants were emitted with the type name in front *)
+Definition ok_enum_conflict (c : bool * list string * list (string * list string) * list bool) : bool :=
+  let '(always, types, enums, obs) := c in
+  list_eqb Bool.eqb (map snd (resolve always types enums)) obs.
+Definition mismatches_enum_conflict := mismatches ok_enum_conflict.
